@@ -7,7 +7,7 @@
    api.Booklet accepts: N in {2,4,6,8}, booklet type in {Booklet, BookletAdvanced, BookletPerfectBound};
    binding bd, orientation ls (landscape), fold tf are arbitrary; IW = width of Go's int;
    `fits IW n` = 2 <= IW and 4n + 256 <= MaxInt (no arithmetic overflow in the position functions). *)
-From PV Require Import Lib.GoInt C34.Generated C34.Model C34.ProofsBase C34.ProofsOrder C34.ProofsNup.
+From PV Require Import Lib.GoInt C34.Generated C34.Model C34.ProofsBase C34.ProofsOrder C34.ProofsNup C34.ProofsTop.
 From Coq Require Import Permutation Lia.
 Open Scope Z_scope.
 
@@ -17,11 +17,7 @@ Theorem C34_ordering_is_permutation : forall IW N bt bd ls tf folio pages,
   accepted N bt -> fits IW (slice_len pages + 2 * N) ->
   exists slots, getBookletOrdering IW N bt bd ls tf false folio pages = Ok slots /\
     Permutation (map fst slots) (pages ++ repeat 0 (Z.to_nat (Z.of_nat (length slots) - slice_len pages))).
-Proof.
-  intros IW N bt bd ls tf folio pages Ha Hf.
-  destruct (ordering_plain IW N bt bd ls tf folio pages Ha Hf) as (slots & H1 & H2 & H3).
-  exists slots. split; [exact H1|]. rewrite H2. exact H3.
-Qed.
+Proof. exact ordering_is_permutation_lemma. Qed.
 Print Assumptions C34_ordering_is_permutation.
 
 (* ... the number of slots is a whole number of sheets (2N slots per sheet) and the padding is less than one sheet *)
@@ -30,14 +26,7 @@ Theorem C34_slots_whole_sheets : forall IW N bt bd ls tf folio pages,
   exists slots, getBookletOrdering IW N bt bd ls tf false folio pages = Ok slots /\
     Z.of_nat (length slots) mod (2 * N) = 0 /\
     0 <= Z.of_nat (length slots) - slice_len pages < 2 * N.
-Proof.
-  intros IW N bt bd ls tf folio pages Ha Hf.
-  destruct (ordering_plain IW N bt bd ls tf folio pages Ha Hf) as (slots & H1 & H2 & H3).
-  exists slots. split; [exact H1|]. rewrite H2.
-  destruct Ha as (HN & _).
-  destruct (padTo_spec (slice_len pages) (2 * N) (slice_len_nonneg pages) ltac:(lia)) as (Hm & Hr).
-  split; [exact Hm|lia].
-Qed.
+Proof. exact slots_whole_sheets_lemma. Qed.
 Print Assumptions C34_slots_whole_sheets.
 
 (* counting form: with distinct non-zero page numbers every selected page occupies exactly one slot,
@@ -48,15 +37,7 @@ Theorem C34_each_page_exactly_once : forall IW N bt bd ls tf folio pages,
     (forall p, In p pages -> count_occ Z.eq_dec (map fst slots) p = 1%nat) /\
     (forall p, p <> 0 -> ~ In p pages -> count_occ Z.eq_dec (map fst slots) p = 0%nat) /\
     Z.of_nat (count_occ Z.eq_dec (map fst slots) 0) = Z.of_nat (length slots) - slice_len pages.
-Proof.
-  intros IW N bt bd ls tf folio pages Ha Hf Hnd H0.
-  destruct (ordering_plain IW N bt bd ls tf folio pages Ha Hf) as (slots & H1 & H2 & H3).
-  exists slots. split; [exact H1|].
-  destruct (once_each _ _ _ H3 Hnd H0) as (Ha1 & Ha2 & Ha3).
-  split; [exact Ha1|]. split; [exact Ha3|]. rewrite Ha2, H2.
-  destruct Ha as (HN & _).
-  destruct (padTo_spec (slice_len pages) (2 * N) (slice_len_nonneg pages) ltac:(lia)) as (Hm & Hr). lia.
-Qed.
+Proof. exact each_page_exactly_once_lemma. Qed.
 Print Assumptions C34_each_page_exactly_once.
 
 (* Multi-folio booklets: proved for the folio sizes whose signature (4 * folio pages, as the code
@@ -71,14 +52,7 @@ Theorem C34_multifolio_partial : forall IW N bt bd ls tf folio pages,
     Permutation (map fst slots) (pages ++ repeat 0 (Z.to_nat (Z.of_nat (length slots) - slice_len pages))) /\
     Z.of_nat (length slots) mod (2 * N) = 0 /\
     0 <= Z.of_nat (length slots) - slice_len pages < 2 * N.
-Proof.
-  intros IW N bt bd ls tf folio pages Ha Hfo Hg Hk Hf.
-  destruct (ordering_multifolio IW N bt bd ls tf folio pages Ha Hfo Hg Hk Hf) as (slots & H1 & H2 & H3).
-  exists slots. split; [exact H1|]. rewrite H2. split; [exact H3|].
-  destruct Ha as (HN & _).
-  destruct (padTo_spec (slice_len pages) (2 * N) (slice_len_nonneg pages) ltac:(lia)) as (Hm & Hr).
-  split; [exact Hm|lia].
-Qed.
+Proof. exact multifolio_partial_lemma. Qed.
 Print Assumptions C34_multifolio_partial.
 
 (* The defect: an accepted multi-folio configuration with N >= 4 on which the model of
@@ -86,11 +60,7 @@ Print Assumptions C34_multifolio_partial.
 Theorem C34_multifolio_refuted : exists N bt bd ls tf folio pages,
   accepted N bt /\ 1 <= folio /\ 1 <= slice_len pages /\ fits 64 (slice_len pages + 2 * N) /\
   getBookletOrdering 64 N bt bd ls tf true folio pages = Err.
-Proof.
-  exists 4, 0, 0, false, false, 1, [1;2;3;4;5;6;7;8;9].
-  split; [unfold accepted; lia|]. split; [lia|]. split; [vm_compute; congruence|].
-  split; [unfold fits, maxS; vm_compute; repeat split; congruence|]. exact multifolio_panics.
-Qed.
+Proof. exact multifolio_refuted_lemma. Qed.
 Print Assumptions C34_multifolio_refuted.
 
 (* n-up and grid (nup.go impositionPages, N = cells per output page): the slots are the selected
@@ -98,19 +68,13 @@ Print Assumptions C34_multifolio_refuted.
 Theorem C34_nup_in_order : forall IW N sorted, 0 < N ->
   exists blanks, nupSlots IW N sorted = sorted ++ repeat 0 (Z.to_nat blanks) /\
     0 <= blanks < N /\ (slice_len sorted + blanks) mod N = 0.
-Proof.
-  intros IW N sorted HN. exists (padTo (slice_len sorted) N - slice_len sorted).
-  split; [apply nupSlots_spec; exact HN|].
-  destruct (padTo_spec (slice_len sorted) N (slice_len_nonneg sorted) HN) as (Hm & Hr).
-  split; [lia|]. replace (slice_len sorted + (padTo (slice_len sorted) N - slice_len sorted)) with (padTo (slice_len sorted) N) by lia.
-  exact Hm.
-Qed.
+Proof. exact nup_in_order_lemma. Qed.
 Print Assumptions C34_nup_in_order.
 
 (* ... and the number of output pages is ceil(k / N) *)
 Theorem C34_nup_pages : forall N sorted, 0 < N -> 1 <= slice_len sorted ->
   nupOutputPages N sorted = (slice_len sorted + N - 1) / N.
-Proof. exact nupOutputPages_spec. Qed.
+Proof. exact nup_pages_lemma. Qed.
 Print Assumptions C34_nup_pages.
 
 (* non-vacuity: hypotheses are satisfiable, concrete orderings *)
